@@ -20,6 +20,7 @@ type replayFile struct {
 	Harness    string               `json:"harness"`
 	Choices    []int                `json:"choices"`
 	Values     map[string]uint64    `json:"values"`
+	Params     map[string]int       `json:"params"`
 	Ghost      map[string]ghostData `json:"ghost"`
 	Kind       string               `json:"kind"`
 	Failed     string               `json:"failed"`
@@ -120,6 +121,9 @@ func IteInt(c bool, a, b int) int {
 	return b
 }
 func Concrete(x int) int { return x }
+
+// Param returns the bound recorded in the counterexample file.
+func Param(name string) int { return rf.Params[name] }
 
 type Ghost struct {
 	m    map[uint64]uint64
